@@ -1,12 +1,12 @@
 SPECIFICATION Spec
 CONSTANTS
-  K = 2
-  MaxLeaves = 6
-  MaxDepth = 5
+  K = 4
+  MaxLeaves = 7
+  MaxDepth = 3
   MaxN = 3
   ScratchSize = "code"
   Finished = "last"
-  EarlyExit = TRUE
+  EarlyExit = FALSE
 INVARIANT CodesOk
 INVARIANT Refines
 INVARIANT LevelData
